@@ -117,7 +117,7 @@ func (x *Exec) funcValueKey(v ssa.Value) string {
 
 func (x *Exec) calleeAssigns(c *ssa.CallCommon) []assignItem {
 	fc, _, callee := x.calleeContract(c)
-	if fc == nil && !c.IsInvoke() && x.inlinable(callee) {
+	if _, loopHelper := x.inlineLoopBase[callee]; fc == nil && !c.IsInvoke() && (x.inlinable(callee) || (loopHelper && x.inlinableLoops(callee, true))) {
 		return x.inlineAssigns(callee)
 	}
 	if fc == nil {
@@ -246,7 +246,8 @@ func (x *Exec) call(in ssa.Instruction, c *ssa.CallCommon, res ssa.Value) {
 	pre := x.st.clone()
 	x.typeArgFn = callee
 	defer func() { x.typeArgFn = nil }()
-	if fc == nil && !c.IsInvoke() && x.inlinable(callee) && len(callee.Params) == len(args) {
+	_, loopHelper := x.inlineLoopBase[callee]
+	if fc == nil && !c.IsInvoke() && (x.inlinable(callee) || (loopHelper && x.inlinableLoops(callee, true))) && len(callee.Params) == len(args) {
 		results := x.inlineCall(callee, args, c.Args)
 		tupI := resT.(*types.Tuple)
 		if res != nil && tupI.Len() > 0 {
@@ -652,7 +653,7 @@ func (x *Exec) callPatterns(c *ssa.CallCommon, callee *ssa.Function) []string {
 		if n := x.sourceName(c.Value); n != "" {
 			ps = append(ps, n+"."+c.Method.Name())
 		}
-		return ps
+		return x.aliasedPatterns(ps)
 	}
 	if callee != nil {
 		ps = append(ps, shortName(callee), callee.Name())
@@ -667,7 +668,23 @@ func (x *Exec) callPatterns(c *ssa.CallCommon, callee *ssa.Function) []string {
 		ps = append(ps, n)
 	}
 	ps = append(ps, x.funcValueKey(c.Value))
-	return ps
+	return x.aliasedPatterns(ps)
+}
+
+// aliasedPatterns adds, for every pattern that starts with the current name of a
+// renamed variable, the pattern under the name the contract was written with.
+func (x *Exec) aliasedPatterns(ps []string) []string {
+	out := ps
+	for _, p := range ps {
+		for o, n := range x.alias {
+			if p == n {
+				out = append(out, o)
+			} else if strings.HasPrefix(p, n+".") {
+				out = append(out, o+p[len(n):])
+			}
+		}
+	}
+	return out
 }
 
 // sourceName finds a source-level name for a value (parameter, field, local).
